@@ -11,7 +11,7 @@ func init() {
 				ks = []int{0, 1, 3, 8, 16}
 				ns = []int{0, 1, 2, 5, 8, 16}
 			}
-			for op := 0; op <= 7; op++ {
+			for op := 0; op <= 9; op++ {
 				for _, k := range ks {
 					for errored := 0; errored <= 1; errored++ {
 						nn := ns
